@@ -281,7 +281,10 @@ def check_C10(c):
                         break
     oracle(reqs, impl, "built-in set")
     # extended operator set (prefix-closed): registered symbolic and word operators
-    pre = ["REG\tinfix\t%s\t115\tcalc\tleft\t(arg 0)" % hx(o) for o in ["**", "~", "=~", "<=>", "hi", "inside", "<~", "<~>"]] + \
+    pre = ["REG\tinfix\t%s\t115\tcalc\tleft\t(arg 0)" % hx(o) for o in ["**", "~", "=~", "<=>", "hi", "inside", "<~", "<~>",
+                                                                              # word operators (first character is not an operator character) that
+                                                                              # contain operator characters, and one longer than any built-in
+                                                                              "~=", "is-a", "nil?", "isGreaterThanOrEqualTo"]] + \
           ["REG\tinfix\t%s\t%d\tcalc\tleft\t(arg 0)" % (hx(o), p_) for o, p_ in [("otherwise", -5), ("<=|", -1), ("atzero", 0)]] + \
           ["REG\tprefix\t%s\t0\tcalc\tleft\t(arg 0)" % hx(o) for o in ["~~", "neg"]] + \
           ["REG\tpostfix\t%s\t0\tcalc\tleft\t(arg 0)" % hx(o) for o in ["!!", "percent", "§"]]
@@ -289,7 +292,7 @@ def check_C10(c):
     strings2 = []
     words2 = G.WORDS + ["**", "~", "=~", "<=>", "hi", "inside", "in", "ins", "hinside", "~~", "neg", "!!", "<~", "<~>", "=~=", "<=", "percent", "percents", "§", "5 percent",
                                # registered with a negative / zero precedence: still registered operators for the tokenizer
-                               "otherwise", "<=|", "atzero", "otherwises"]
+                               "otherwise", "<=|", "atzero", "otherwises", "~=", "is-a", "nil?", "isGreaterThanOrEqualTo", "is", "nil", "is-ab"]
     for _ in range(n // 2):
         k = 1 + rng.below(16)
         strings2.append("".join(rng.choice(alpha2) for _ in range(k)))
@@ -538,6 +541,37 @@ def check_C11(c):
             c.violation("implementation-vs-property", "redundant parentheses around an operand of a tall, shallow expression changed the parse (or the plain chain was rejected)",
                         {"original": a_[:200] + (" …" if len(a_) > 200 else ""), "relaid": b_[:300] + (" …" if len(b_) > 300 else ""), "original_ast": ra[:120], "relaid_ast": rb[:120],
                          "requests": [parse_req(b_)]})
+    # a symbol registered in two roles (postfix and infix, prefix and infix): which role it plays is decided by the grammar
+    # position, never by how it is spaced
+    dual_pre = ["REG\tpostfix\t%s\t0\tcalc\tleft\t(arg 0)" % hx("---"), "REG\tinfix\t%s\t105\tcalc\tleft\t(arg 0)" % hx("---"),
+                "REG\tprefix\t%s\t0\tcalc\tleft\t(arg 0)" % hx("+++"), "REG\tinfix\t%s\t105\tcalc\tleft\t(arg 0)" % hx("+++"),
+                "REG\tpostfix\t%s\t0\tcalc\tleft\t(arg 0)" % hx("pct"), "REG\tinfix\t%s\t105\tcalc\tleft\t(arg 0)" % hx("pct")]
+    dual = []
+    for toks in (["a", "---", "b"], ["a", "---"], ["[", "a", "---", ",", "b", "]"], ["a", "---", "---", "b"], ["a", "+++", "b"], ["+++", "a", "+++", "b"], ["a", "+", "+++", "b"],
+                 ["f", "(", "a", "---", ")", "---", "b"], ["a", "pct", "b"], ["a", "pct", ";", "b"], ["x", "=", "a", "---", "b", "---"]):
+        variants = {" ".join(toks), "  ".join(toks), " \t".join(toks)}
+        def sym(t_): return all(ch in "+-*/^%&!=?:><|" for ch in t_)
+        def opnd(t_): return t_ in ("a", "b", "x")
+        for k_ in range(len(toks) - 1):
+            # a blank may be dropped only where the two tokens cannot merge: between an operand name and a symbolic operator
+            if (opnd(toks[k_]) and sym(toks[k_ + 1])) or (sym(toks[k_]) and opnd(toks[k_ + 1])):
+                variants.add("".join(t_ + (" " if i_ != k_ else "") for i_, t_ in enumerate(toks)).strip())
+            variants.add("".join(t_ + ("\n" if i_ == k_ else " ") for i_, t_ in enumerate(toks)).strip())
+        vs = sorted(variants)
+        dual.append(vs)
+    dreqs = list(dual_pre)
+    for vs in dual:
+        dreqs += [parse_req(v_) for v_ in vs]
+    di, dm = both(dreqs, timeout=300)
+    c.add_stream(Stream("PARSE layouts of operators registered in two roles", dreqs, di, dm, numeric=False))
+    pos = len(dual_pre)
+    for vs in dual:
+        res = di[pos:pos + len(vs)]
+        pos += len(vs)
+        # word operators need their blanks; compare only layouts that tokenize to the same token texts: here all variants do
+        if len(set(canon(r_, False) for r_ in res)) != 1:
+            c.violation("implementation-vs-property", "the spacing around an operator registered in two roles changed the parse",
+                        {"requests": dual_pre + [parse_req(v_) for v_ in vs], "layouts": vs, "implementation": res})
     # span-driven re-layout of arbitrary accepted inputs: gaps located with the token hook
     strs = [G.random_wordy(rng, 8) for _ in range(4000 if c.quick() else 60000)]
     tk = run_impl([tok_req(s) for s in strs], timeout=600)
